@@ -4,6 +4,69 @@ FUNCTIONS = ["get_conseq_entry_count"]
 TRUSTED = []
 ASSUMPTIONS = []
 EXPLANATION = ""
+import itertools
+
+
+def _shapes(n, maxlinks=2, kinds="DFL"):
+    """every rooted ordered tree with n nodes: node 0 is the root directory,
+    node i > 0 hangs below an earlier directory and is an (empty or not)
+    directory, a file or a hard link to any file of the tree."""
+    res = []
+
+    def rec(i, parents, ks):
+        if i == n:
+            links = [j for j in range(n) if ks[j] == 'L']
+            files = [j for j in range(n) if ks[j] in 'FO']
+            if len(links) > maxlinks or (links and not files):
+                return
+            for combo in itertools.product(files, repeat=len(links)):
+                t = [0] * n
+                for l, c in zip(links, combo):
+                    t[l] = c
+                res.append((tuple(parents), "".join(ks), tuple(t)))
+            return
+        for p in range(i):
+            if ks[p] != 'D':
+                continue
+            for k in kinds:
+                rec(i + 1, parents + [p], ks + [k])
+    rec(1, [0], ['D'])
+    return res
+
+
+def _shape_case(sh, tier, extra=None):
+    parents, kinds, targets = sh
+    n = len(kinds)
+    d = {"NN": n}
+    for i in range(n):
+        d["K%d" % i] = "'%s'" % kinds[i]
+        if i > 0:
+            d["P%d" % i] = parents[i]
+        if kinds[i] == 'L':
+            d["T%d" % i] = targets[i]
+    cid = kinds + "_" + "".join(str(p) for p in parents[1:]) + \
+        ("_t" + "".join(str(targets[i]) for i in range(n) if kinds[i] == 'L')
+         if 'L' in kinds else "")
+    if extra:
+        d.update(extra)
+        cid += "_" + "_".join(k.lower() for k in extra)
+    return dict(id=cid, defines=d, tier=tier)
+
+
+_POST_CASES = []
+for _n in range(1, 5):
+    _POST_CASES += [_shape_case(sh, "quick") for sh in _shapes(_n)]
+_POST_CASES += [_shape_case(sh, "thorough") for sh in _shapes(5)]
+_six = _shapes(6)
+_POST_CASES += [_shape_case(sh, "thorough") for sh in _six[7::16]]
+# the probe shape of DESIGN 2.4, a deep chain and a fifo in place of a file
+_POST_CASES += [
+    _shape_case(((0, 0, 0, 1, 1, 1), "DDFFFL", (0, 0, 0, 0, 0, 2)), "quick"),
+    _shape_case(((0, 0, 1, 2, 3, 0), "DDDDFL", (0, 0, 0, 0, 0, 4)), "quick"),
+    _shape_case(((0, 0, 0, 1, 1, 0), "DDLOFL", (0, 0, 3, 0, 0, 4)), "quick"),
+    _shape_case(((0, 0, 0, 1), "DDFL", (0, 0, 0, 2)), "quick", {"CALLOC_FAILS": None}),
+]
+
 FP = {"do_block": "stub_do_block", "write_at": "stub_write_at",
       "get_size": "stub_get_size", "destroy": "stub_destroy", "copy": "stub_copy"}
 
@@ -45,6 +108,25 @@ HARNESSES = [
                      tier="quick" if sum(r) <= 2 or r == (2, 1, 0) else "thorough")
                 for r in ((1, 0, 0), (2, 0, 0), (1, 1, 0), (3, 0, 0), (2, 1, 0),
                           (1, 2, 0), (1, 1, 1))]),
+    dict(name="post_dense", file="post_dense.c", timeout=170, unwind=9,
+         label="bounded(all tree shapes <= 5 nodes, <= 2 hard links; 6 nodes sampled)",
+         include_dirs=["lib/fstree/src"], cases=_POST_CASES),
+    dict(name="export_tbl", file="export_tbl.c", label="proved", timeout=170, unwind=4,
+         flags=["--arrays-uf-always"],
+         cases=[dict(id="add", defines={"OP_WRITE": 0}, tier="quick"),
+                dict(id="write", defines={"OP_WRITE": 1}, tier="quick")]),
+    dict(name="dir_inode", file="dir_inode.c", label="bounded(index<=3,name<=4)",
+         timeout=170, unwind=14,
+         cases=[dict(id="n%d" % n, defines={"NIDX": n}, tier="quick") for n in range(4)]),
+    dict(name="finish_pad", file="finish_pad.c", timeout=300, unwind=4,
+         label="bounded(devblksize = 2^k, k = 0..32)",
+         fp={"get_size": "stub_get_size", "write_at": "stub_write_at"},
+         cases=[dict(id="blk%d" % (1 << k), defines={"BLK": 1 << k},
+                     tier="quick" if k in (10, 12, 16) else "thorough")
+                for k in range(0, 33)] +
+               [dict(id="blk3000_s24", defines={"BLK": 3000, "SIZEBITS": 24},
+                     tier="thorough",
+                     label="bounded(devblksize = 3000, image < 2^24)")]),
     dict(name="dir_run", file="dir_run.c", label="proved", timeout=1200,
          nochecks=["--conversion-check"], weight=20,
          cases=[dict(id="n257", defines={"DR_N": 257}, unwind=258, tier="quick",
